@@ -41,15 +41,30 @@
 //                          overload but no size overload cannot be serialised
 //                          through the documented entry point at all
 //                          (DESIGN 8-7: std::deque).
-//  E6 "compile-probes"     E4 sees declarations only; here the compiler is run
-//                          on gSerialize(buf,x) / gSized(x) / gDeserialize for
-//                          a list of type expressions (incl. pairs with
-//                          string / vector members, which E4 cannot judge).
 //  E5 "reuse-target"       gDeserialize into an object that already holds
 //                          another value of the same type.
+//  E6 "compile-probes"     E4 sees declarations only; here the compiler is run
+//                          (syntax only, ~2 s per probe, 16 at a time) on
+//                          gSerialize(buf,x) / gSized(x) / gDeserialize(buf,x)
+//                          for 18 type expressions (incl. pairs with string /
+//                          vector members, which E4 cannot judge).
 //  B1 "buffer-ops"         history BFS of SerializeBuffer / DeSerializeBuffer
 //                          operations and the moves between them against two
 //                          std::vector<uint8_t> and an offset.
+//
+// Alphabet (E1): 34 types, 74 values (2-4 per type incl. the empty one):
+// uint8/32/64, double, std::pair<int,double>, galois::Pair, galois::
+// TupleOfThree, a trivially copyable struct, a struct with the tt_is_copyable
+// trait, std::string ("", 3, 100 chars), std::vector of int / uint8_t /
+// uint64_t / struct / string / pair / vector<int> / CopyableAtomic<int> / a
+// user type, PODResizeableArray<int|uint64_t>, gdeque<int,2> (2 per block),
+// gdeque<string>, DynamicBitSet (0/5/128/130 bits), a nested SerializeBuffer,
+// the unread rest of a DeSerializeBuffer, a user type with serialize()/
+// deserialize(); and, written through internal::gSerializeObj because the
+// public entry point does not compile for them (E4/E6): std::deque<int|string>,
+// CopyableAtomic<int>, galois::Pair<int,string>, std::pair<string,vector<int>>;
+// std::tuple<int,double,string> (elements written one by one, read through
+// the tuple overload); vector<int> written through the lazy interface.
 //
 // Oracle (E1/E2): each deserialised value equals the serialised one; each
 // gDeserialize consumes exactly the bytes its gSerialize produced; the pad
@@ -268,7 +283,7 @@ using DeqS     = std::deque<std::string>;
 using GDeqI    = galois::gdeque<int, 2>; // 2 per block: 5 elements = 3 blocks
 using GDeqS    = galois::gdeque<std::string>;
 using PodArrI  = galois::PODResizeableArray<int>;
-using PodArrU64 = galois::PODResizeableArray<uint64_t>;
+using PodArrU64 = galois::PODResizeableArray<uint64_t>; // alignof 8
 using CAtomI   = galois::CopyableAtomic<int>;
 using NestedS  = Nested<false>;
 using NestedR  = Nested<true>;
@@ -367,15 +382,16 @@ TD_REGULAR(VecU64, true, "std::vector<uint64_t>", VecU64{},
            VecU64{1, 0xFFFFFFFFFFFFFFFFull, 0x8000000000000001ull})
 TD_REGULAR(VecPod, true, "std::vector<Pod>", VecPod{},
            VecPod{Pod{1, 1.5, 'a'}, Pod{2, -2.5, 'b'}})
-TD_REGULAR_X(VecS, true, SizedSeqFamily, "std::vector<std::string>", VecS{}, VecS{""},
-           VecS{"x", "", "hello world"})
-TD_REGULAR_X(VecP, true, SizedSeqFamily, "std::vector<std::pair<int,double>>", VecP{},
-           VecP{PairID(1, 1.5), PairID(2, -2.5)})
-TD_REGULAR_X(VecVI, true, SizedSeqFamily, "std::vector<std::vector<int>>", VecVI{},
-           VecVI{VecI{}, VecI{1, 2}})
+TD_REGULAR_X(VecS, true, SizedSeqFamily, "std::vector<std::string>", VecS{},
+             VecS{""}, VecS{"x", "", "hello world"})
+TD_REGULAR_X(VecP, true, SizedSeqFamily, "std::vector<std::pair<int,double>>",
+             VecP{}, VecP{PairID(1, 1.5), PairID(2, -2.5)})
+TD_REGULAR_X(VecVI, true, SizedSeqFamily, "std::vector<std::vector<int>>",
+             VecVI{}, VecVI{VecI{}, VecI{1, 2}})
 TD_REGULAR_X(DeqI, false, DequeFamily, "std::deque<int>", DeqI{}, DeqI{7},
-           DeqI{1, 2, 3, 4, 5})
-TD_REGULAR_X(DeqS, false, DequeFamily, "std::deque<std::string>", DeqS{}, DeqS{"ab", "", "c"})
+             DeqI{1, 2, 3, 4, 5})
+TD_REGULAR_X(DeqS, false, DequeFamily, "std::deque<std::string>", DeqS{},
+             DeqS{"ab", "", "c"})
 
 // std::tuple: written element by element, read through the tuple overload
 template <>
@@ -1717,7 +1733,7 @@ int main(int argc, char** argv) {
     c.opname = [](int i) { return std::string(BUFOP_NAME[i]); };
     c.run    = bufops_run;
     c.quick_depth    = 6;
-    c.thorough_depth = 7;
+    c.thorough_depth = 8;
     bfs.push_back(c);
   }
   {
